@@ -118,6 +118,7 @@ def parse_strace(log_path, root, ack_path, names):
     inj = []
     pertid, cur_pid = {}, [""]
     owner, stale = {}, {}
+    dirfds = {}
 
     def reopen(fd):
         # strace logs calls of different threads in the order it handles their exit stops: the close(N) of one thread
@@ -182,6 +183,8 @@ def parse_strace(log_path, root, ack_path, names):
                 ev.append({"ev": "sys", "sc": "opentmp", "fd": rv if rv is not None else 0, "ret": "ok" if rk == "ok" else ("unknown" if rk == "unknown" else "err"),
                            "batch": "O_DSYNC" not in flags})
                 return
+            if rk == "ok" and path.startswith(root) and "O_CREAT" not in flags and "O_TMPFILE" not in flags:
+                dirfds[rv] = path          # a directory of the tree opened by os.RemoveAll (unlinkat relative to it)
             nm = name_of(path)
             if nm and "O_CREAT" in flags:
                 if rk == "ok":
@@ -252,10 +255,13 @@ def parse_strace(log_path, root, ack_path, names):
                 ev.append({"ev": "sys", "sc": "rename", "from": n1, "to": n2, "ret": rk})
             return
         if call in ("unlinkat", "unlink"):
-            m = re.match(r'(?:AT_FDCWD, )?"([^"]*)"(?:, (\w+))?', args)
-            if not m or (m.group(2) and "REMOVEDIR" in m.group(2)):
+            m = re.match(r'(?:(AT_FDCWD|\d+), )?"([^"]*)"(?:, (\w+))?', args)
+            if not m or (m.group(3) and "REMOVEDIR" in m.group(3)):
                 return
-            nm = name_of(m.group(1))
+            upath = m.group(2)
+            if m.group(1) and m.group(1).isdigit():
+                upath = os.path.join(dirfds.get(int(m.group(1)), ""), upath)
+            nm = name_of(upath)
             if nm:
                 ev.append({"ev": "sys", "sc": "unlink", "name": nm, "ret": rk})
             return
